@@ -3,7 +3,7 @@
 (* applied to every input mesh of the palette; 2-D likewise.                                   *)
 EXTENDS Integers, Sequences, TLC, Json
 CONSTANTS MaxLen, Dim
-Meshes3 == {"box", "boxsub", "voxL", "voxStairs", "ico", "torus", "two", "thin", "thinElim", "octa", "prismcap"}
+Meshes3 == {"box", "boxsub", "voxL", "voxStairs", "ico", "torus", "two", "thin", "thinElim", "octa", "prismcap7", "prismcap", "prismcap40"}
 Ops3 == {"DecimateSimple", "Decimator", "ElimCoplanar", "ElimCoplanarFiltered", "ElimEdgesShort", "ElimEdgesAll",
          "FlipDelaunay", "SubdivideEdges2", "SubdivideEdges3", "Loop", "Subdivider", "Blur05", "Blur0", "Blur1", "SmoothAreas",
          "MeshSmoother", "VoxelSmoother", "FlattenBase", "ARAP", "ARAPSeq", "SubdividerWild"}
